@@ -13,6 +13,7 @@ Inductive oline :=
 | OAnyLines                  (* zero or more out lines the model does not predict (help text) *)
 | OExec (cmd : str)          (* gdb.execute(cmd) *)
 | OStop (b : bool)           (* value returned by the breakpoint's stop() *)
+| ORaise (e : exn)           (* an exception escapes the breakpoint's stop() *)
 | OOM.                       (* this step left the modelled fragment *)
 
 Definition txt (s : str) : line := [Txt s].
@@ -240,11 +241,11 @@ Definition command_format (s : sess) (cmd : str) : str :=
   else s2l "$ " ++ color (s_color s) alert_color cmd.
 
 (* _get_command: unique prefix *)
-Definition get_command' (s : sess) (c : str) : option str * list oline :=
+Definition get_command' (on : bool) (c : str) : option str * list oline :=
   match filter (starts_with c) command_names with
   | [x] => (Some x, [])
-  | [] => (None, [error_line (s_color s) (txt (s2l "Unknown command '" ++ c ++ [39%N]))])
-  | found => (None, [error_line (s_color s)
+  | [] => (None, [error_line on (txt (s2l "Unknown command '" ++ c ++ [39%N]))])
+  | found => (None, [error_line on
                        (txt (39%N :: c ++ s2l "' could refer to multiple commands: " ++ comma_join found))])
   end.
 
@@ -378,7 +379,7 @@ Definition cmd_help (s : sess) (arg : str) : sess * list oline :=
   | _ =>
       let a := if starts_with (s2l "wl") arg then strip (skipn 2 arg) else arg in
       if str_eqb a (s2l "matcher") then (s, [OAnyLines])
-      else let '(_, errs) := get_command' s a in (s, errs ++ [OAnyLines])
+      else let '(_, errs) := get_command' (s_color s) a in (s, errs ++ [OAnyLines])
   end.
 
 Definition cmd_list (s : sess) (arg : str) : sess * list oline :=
@@ -509,33 +510,42 @@ Definition split_first_space (l : str) : str * option str :=
   | _ :: r => (a, Some r)
   end.
 
-(* Controller.process_command *)
-Fixpoint process_command (fuel : nat) (s : sess) (input : str) : sess * list oline :=
+(* Controller.process_command, first half: from the typed line to (command name, argument).
+   Pure text processing; [on] only colours the error lines. *)
+Fixpoint resolve_cmd (fuel : nat) (on : bool) (input : str) : list oline * option (str * str) :=
   match fuel with
-  | O => (s, [OOM])
+  | O => ([OOM], None)
   | S f =>
       let l := strip input in
       let '(a0, a1) := split_first_space l in
       let first := strip (no_color a0) in
       let second := match a1 with Some r => strip (no_color r) | None => [] end in
       match first, second with
-      | [], _ :: _ => (s, [OOM])        (* AssertionError: a colour sequence followed by a blank *)
+      | [], _ :: _ => ([OOM], None)        (* AssertionError: a colour sequence followed by a blank *)
       | _, _ =>
           let '(first1, pre) :=
             match first with
-            | [] => (s2l "help", [error_line (s_color s) (txt (s2l "No command specified"))])
+            | [] => (s2l "help", [error_line on (txt (s2l "No command specified"))])
             | _ => (first, [])
             end in
           if str_eqb first1 [119%N] || str_eqb first1 (s2l "wl") then
-            let '(s1, o) := process_command f s second in (s1, pre ++ o)
+            let '(o, r) := resolve_cmd f on second in (pre ++ o, r)
           else
             let first2 := if starts_with (s2l "wl") first1 then skipn 2 first1 else first1 in
-            let '(cmd, errs) := get_command' s first2 in
+            let '(cmd, errs) := get_command' on first2 in
             match cmd with
-            | Some name => let '(s1, o) := run_command s name second in (s1, pre ++ errs ++ o)
-            | None => (s, pre ++ errs)
+            | Some name => (pre ++ errs, Some (name, second))
+            | None => (pre ++ errs, None)
             end
       end
+  end.
+
+(* second half: run the command *)
+Definition process_command (fuel : nat) (s : sess) (input : str) : sess * list oline :=
+  let '(pre, r) := resolve_cmd fuel (s_color s) input in
+  match r with
+  | Some (name, arg) => let '(s1, o) := run_command s name arg in (s1, pre ++ o)
+  | None => (s, pre)
   end.
 
 Definition command_fuel : nat := 200.
@@ -575,7 +585,7 @@ Definition gdb_message (s0 : sess) (id : str) (thread : Z) (rel : Z) (m : pmsg) 
   let '(s3, o2, err, _) := conn_message s2 id rel m in
   match err with
   | None => (s3, o1 ++ warn ++ o2 ++ [OStop (s_paused s3)])
-  | Some _ => (s3, o1 ++ warn ++ o2 ++ [OOut [AnyText]])   (* exception escapes stop(): reported by the harness *)
+  | Some (e, _) => (s3, o1 ++ warn ++ o2 ++ [ORaise e])
   end.
 
 (* WlConnectionDestroyBreakpoint.stop() *)
@@ -630,3 +640,19 @@ Fixpoint run (T : top) (es : list event) : top * list (list oline) :=
   end.
 
 End WithProtocol.
+
+(* ---- TerminalUI.run_until_stopped (file and run mode) ---------------------------------------------- *)
+(* inputs = the lines the user types; returns state, output, number of prompts issued, and whether
+   input ran out while still prompting (input() raises EOFError) *)
+Fixpoint ui_loop (s : sess) (inputs : list str) : sess * list oline * nat * bool :=
+  if s_paused s && negb (s_quit s) then
+    match inputs with
+    | [] => (s, [], 1%nat, true)
+    | c :: rest =>
+        let '(s1, o) := process_command command_fuel s c in
+        let '(s2, o2, n, e) := ui_loop s1 rest in
+        (s2, o ++ o2, S n, e)
+    end
+  else (s, [], O, false).
+Definition run_until_stopped (s : sess) (inputs : list str) : sess * list oline * nat * bool :=
+  ui_loop (set_pause s true (s_quit s)) inputs.
